@@ -107,6 +107,14 @@ func encodedLen(e *evaluator, v ssa.Value) *term {
 			return e.eval(x.High)
 		}
 	case *ssa.Call:
+		// binary.LittleEndian.AppendUintN(base, v)
+		if f := calleeOf(x); f != nil && strings.HasPrefix(funcID(f), "(encoding/binary.littleEndian).AppendUint") && len(x.Call.Args) == 3 {
+			var n int64
+			fmt.Sscanf(strings.TrimPrefix(funcID(f), "(encoding/binary.littleEndian).AppendUint"), "%d", &n)
+			if base := encodedLen(e, x.Call.Args[1]); base != nil && n > 0 {
+				return O("add", base, K(n/8))
+			}
+		}
 		if bi, ok := x.Call.Value.(*ssa.Builtin); ok && bi.Name() == "append" && len(x.Call.Args) == 2 {
 			base := encodedLen(e, x.Call.Args[0])
 			if base != nil {
@@ -301,15 +309,15 @@ func fixedIntBijection(p *Program, enc, dec *ssa.Function, T types.Type) string 
 	} else {
 		var put *ssa.Call
 		for _, c := range callsIn(enc) {
-			if call, ok := c.(*ssa.Call); ok && strings.Contains(funcID(calleeOf(call)), "PutUint") {
+			if call, ok := c.(*ssa.Call); ok && (strings.Contains(funcID(calleeOf(call)), "PutUint") || strings.Contains(funcID(calleeOf(call)), "AppendUint")) {
 				put = call
 			}
 		}
 		if put == nil {
-			return "Encode does not call binary PutUintN"
+			return "Encode does not call binary PutUintN / AppendUintN"
 		}
-		if !isLittleEndianCall(put, "PutUint"+n) {
-			return "Encode writes with " + funcID(calleeOf(put)) + ", want (binary.littleEndian).PutUint" + n
+		if !isLittleEndianCall(put, "PutUint"+n) && !isLittleEndianCall(put, "AppendUint"+n) {
+			return "Encode writes with " + funcID(calleeOf(put)) + ", want (binary.littleEndian).PutUint" + n + " or AppendUint" + n
 		}
 		root, ok, why := convChain(put.Call.Args[2])
 		if root != assert {
